@@ -48,6 +48,30 @@ FINDINGS reproduced on the real crate (see Pdb/Props/C09.lean for the Lean witne
            value changes size tier while its page of the current table is full loses its index
            entry (value unreachable, slot leaked).
 
+FINDINGS that are NOT fixed (the model is faithful to them; Lean witnesses in
+Pdb/Props/C09F24.lean, harness cases `directed-class-overflow`, `directed-stale-class-overflow`,
+`directed-twin-tail`)
+  F28  More than 64 index entries whose keys agree on the index page at every index size (e.g. on
+       all 50 index-visible bits) cannot be separated by growth: every reindex pass over the queue
+       front ends in another `trigger_reindex`, the index never settles (`C09_full_statement_false_65`;
+       the real index file doubles per pass).  Entries whose slot has been freed or reused count as
+       well: they are left behind in an older table by a size-tier change of their key
+       (`writeExisting`, `j ≠ 0`) and copied by `reindexBatch` like live ones, so 64 live keys of
+       one class are enough.  This is why the totality theorem (`C09_run_total`) bounds the number
+       of `set` OPERATIONS per class of keys, not the number of keys.
+  F29  Assumption A-tail (distinct hashed keys differ in bytes 6..32) is needed: `searchTable`
+       accepts a candidate entry when the slot holds the key's 26-byte tail.  Two keys that differ
+       only in bytes 0..5 share the tail; a stale entry of the first one resolves to the value of
+       the second one once it has taken the freed slot (`C09_full_statement_false_twin`).
+       Reach of A-tail in the crate: non-uniform columns hash keys with salted Blake2b-256 (a pair
+       needs a 208-bit partial collision: out of reach); uniform columns of format version 8 keep
+       bytes 16..32 of the user key and replace bytes 0..16 by salted SipHash-1-3-128 of the whole
+       key (a pair needs equal bytes 16..32 and an 80-bit partial collision of the SipHash output:
+       about 2^40 trials for someone who knows the salt, which is stored in the metadata file);
+       uniform columns of format versions 6 and 7 XOR the key with the salt and versions <= 5 use
+       the key as it is, as does the test-only identity hash (zero salt with the instrumentation
+       feature): there the user chooses the hashed keys.
+
 DRIVER PROTOCOL (command `c09`, stateful; one output line per input line)
   c09 init <bits> <exact|sse2> <grow|nogrow>   fresh column with `bits` index bits      -> ok
   c09 set <hexkey32> <valtoken>    plan `Operation::Set`; valtoken = `t<tier>_<anything>`,
